@@ -84,6 +84,10 @@ def gen_cases(seed, tier):
             "resp_chunks": [c.hex() for c in chunked(body_bytes(ps, resp_len))],
             "_req": [rs, req_len], "_resp": [ps, resp_len],
         })
+    # torn-down exchanges behind a real front server (spill file must be gone afterwards)
+    for k in range(6 if tier == "quick" else 60):
+        maxm = rnd.choice([10, 100, 1000])
+        cases.append({"kind": "abort", "maxm": maxm, "pre": maxm + rnd.choice([1, 50, 5000]), "who": rnd.choice(["target", "client"])})
     return cases
 
 
@@ -108,6 +112,8 @@ def chunks_lit(hexes):
 
 
 def case_term(c, o):
+    if c["kind"] == "abort":
+        return "CaseAbort %d %d %s %s" % (c["maxm"], c["pre"], nlist(o.get("files_during")), nlist(o["files_after"]))
     if c["kind"] == "buf":
         steps = list_lit(["mkWobs %s %s %s" % (ERR[s["err"]], bool_lit(s["over"]), nlist(s["files"])) for s in o["steps"]])
         obs = "(mkBufObs %s %s %s %s)" % (steps, big_str(bytes.fromhex(o["sent"])), nlist(o["files_after_close"]),
@@ -164,7 +170,9 @@ def run(tier, seed):
         distinct = len({json.dumps(c, sort_keys=True) for c in cases})
         outcomes = {}
         for c, o in zip(cases, obs):
-            if c["kind"] == "req":
+            if c["kind"] == "abort":
+                key = "abort:%s spilled=%s left=%s" % (c["who"], bool(o.get("files_during")), bool(o["files_after"]))
+            elif c["kind"] == "req":
                 key = "status=%s hit=%s" % (o["status"], o["hit"])
             else:
                 key = "buf over=%s spill=%s" % (any(s["over"] for s in o["steps"]), any(s["files"] for s in o["steps"]))
